@@ -29,7 +29,7 @@ def r2(ctx):
 
 
 def r4(ctx):
-    new = ctx.fbody(name="new", self_adt=EIM, trait="")
+    new = ctx.fibody(name="new", self_adt=EIM, trait="")
     rt = new.return_term()
     ok = rt[0] == "agg" and rt[1].endswith("ExecutionInstrumentMap::ExecutionInstrumentMap")
     ctx.check("ExecutionInstrumentMap::new", ok, "returns a struct literal", got=render(rt)[:100], key="shape")
@@ -63,13 +63,13 @@ def r4(ctx):
                   got={"adapters": [mir.short(x) for x in names], "root": render(root)}, key="same-source")
     # keyed lookups
     for fn, fld in (("find_asset_index", "asset_names"), ("find_instrument_index", "instrument_names")):
-        b = ctx.fbody(name=fn, self_adt=EIM, trait="")
+        b = ctx.fibody(name=fn, self_adt=EIM, trait="")
         gets = [(bi, t, tm) for bi, t, tm in b.real_calls() if mir._strip_generics(tm[1]).endswith("HashMap::get")]
         ok = len(gets) == 1 and render(gets[0][2][2][0]) == "self." + fld and gets[0][2][2][1][0] == "param"
         ctx.check("ExecutionInstrumentMap::" + fn, ok, "keyed lookup of the given name in self.%s" % fld,
                   got=[render(g[2]) for g in gets], key="keyed")
     for fn, fld, kind in (("find_asset_name_exchange", "assets", "Asset"), ("find_instrument_name_exchange", "instruments", "Instrument")):
-        b = ctx.fbody(name=fn, self_adt=EIM, trait="")
+        b = ctx.fibody(name=fn, self_adt=EIM, trait="")
         look = [(bi, t, tm) for bi, t, tm in b.real_calls()
                 if mir._strip_generics(tm[1]).endswith(("::get", "::get_index", "::get_full", "::get_key_value", "::find", "::find_map"))]
         ctx.check("ExecutionInstrumentMap::" + fn, len(look) == 1 and render(look[0][2][2][0]).startswith("self."),
@@ -132,7 +132,7 @@ def r5(ctx):
     n_calls = 0
     n_fields = 0
     for d in sorted(fns + closures):
-        b = ctx.body(d)
+        b = ctx.ibody(d)
         name = mir.short(whomay.owner_fn(d))
         for bi, t, tm in b.real_calls():
             fn = tm[1].split("::")[-1]
@@ -179,7 +179,7 @@ def r5(ctx):
     runs = [d for d in ctx.facts.bodies if d.startswith("barter::execution::manager::ExecutionManager::") and d.endswith("::run::{closure#0}")]
     if not runs:
         raise Exception("ExecutionManager::run coroutine not found")
-    b = ctx.body(runs[0])
+    b = ctx.ibody(runs[0])
     n = 0
     for bi, t, tm in b.real_calls():
         if tm[1].endswith(("ExecutionClient::open_order", "ExecutionClient::cancel_order")):
@@ -218,7 +218,7 @@ def r6(ctx):
                       "filter on the entry's own exchange, map to its own key and name)", sites=[t["sp"]], got=(stages, sink), want=want[which], key="filter")
     ctx.floor("per-exchange filters", n, 2)
     for fn, cmp_f, ret_f in (("find_exchange_id", "key", "value"), ("find_exchange_index", "value", "key")):
-        fb = ctx.fbody(name=fn, self_adt=EIM, trait="")
+        fb = ctx.fibody(name=fn, self_adt=EIM, trait="")
         oks = [(g_, term) for g_, term, bi in fb.expanded_cases(0) if term[0] == "agg" and term[1].endswith("Result::Ok")]
         ok = len(oks) == 1 and render(oks[0][1][3][0]) == "self.exchange." + ret_f
         if ok:
@@ -231,7 +231,7 @@ def r6(ctx):
 
 def r7(ctx):
     """engine side: every account event is applied to the asset / instrument state selected by the event's own key"""
-    b = ctx.fbody(name="update_from_account", self_adt="barter::engine::state::EngineState", trait="")
+    b = ctx.fibody(name="update_from_account", self_adt="barter::engine::state::EngineState", trait="")
     n = 0
     for bi, t, tm in b.real_calls():
         s = mir.short(tm[1])
@@ -251,8 +251,8 @@ def r7(ctx):
                       "the state is selected by the key carried by the very payload that is then applied to it",
                       sites=[t["sp"]], got={"key": key, "applied": [render(u[2])[:120] for u in users]}, key="routing")
     ctx.floor("keyed state selections in update_from_account", n, 6)
-    ai = ctx.fbody(name="asset_index_mut", self_adt="barter::engine::state::asset::AssetStates", trait="")
-    ii = ctx.fbody(name="instrument_index_mut", self_adt="barter::engine::state::instrument::InstrumentStates", trait="")
+    ai = ctx.fibody(name="asset_index_mut", self_adt="barter::engine::state::asset::AssetStates", trait="")
+    ii = ctx.fibody(name="instrument_index_mut", self_adt="barter::engine::state::instrument::InstrumentStates", trait="")
     for nm, fb in (("AssetStates::asset_index_mut", ai), ("InstrumentStates::instrument_index_mut", ii)):
         look = [render(tm) for bi, t, tm in fb.real_calls() if mir._strip_generics(tm[1]).endswith("::get_index_mut")]
         ctx.check(nm, look == ["IndexMap::get_index_mut(self.0, key.0)"], "positional lookup by the given index", got=look, key="lookup")
